@@ -163,6 +163,9 @@ fn build_patches_recursive<T: SizedType>(
 
     match (old_node, new_node) {
         (StateTreeSkeleton::FnCall(old_children), StateTreeSkeleton::FnCall(new_children)) => {
+            // An exact match must outweigh any number of partial matches at this level, which
+            // together can yield at most one patch per leaf of the new children.
+            let exact_bonus = new_children.iter().map(|c| leaf_count(c)).sum::<usize>() as f64 + 1.0;
             // First, calculate patches for all child nodes (to avoid side effects in score calculation)
             let mut child_patches_map = Vec::new();
             for old_idx in 0..old_children.len() {
@@ -175,12 +178,12 @@ fn build_patches_recursive<T: SizedType>(
                         child_old_path,
                         child_new_path,
                     );
-                    // An exact structural match must outrank every partial match into the
-                    // same node, which can yield at most one patch per leaf.
+                    // An exact structural match outranks every partial match (see `exact_bonus`);
+                    // among exact matches the one carrying more leaves is preferred.
                     let score = if patches.is_empty() {
                         0.0
                     } else if nodes_match(&old_children[old_idx], &new_children[new_idx]) {
-                        leaf_count(&new_children[new_idx]) as f64 + 0.5
+                        exact_bonus + leaf_count(&new_children[new_idx]) as f64
                     } else {
                         patches.len() as f64
                     };
